@@ -148,6 +148,13 @@ def check(ctx):
     _text_rules(ctx, md)
     _nonempty_guards(ctx, md)
 
+
+    # label classification the accepted set depends on (shared recognisers of C17 R-3/R-4)
+    from rules import c17
+    for _enum in ['iana::Algorithm']:
+        c17.check_private_predicate(ctx, "R-1", _enum)
+    c17._classify(ctx, "<common::RegisteredLabelWithPrivate<T> as common::AsCborValue>::from_cbor_value", private=True)
+    c17._classify(ctx, "<common::RegisteredLabel<T> as common::AsCborValue>::from_cbor_value", private=False)
     # --- R-4 ----------------------------------------------------------------------------------------
     written = sorted({f for f, e in md.field_effects() if e["bb"] in md.loop[1]})
     allf = sorted(prog.struct_fields(RESULT) or [])
@@ -279,25 +286,52 @@ def _text_rules(ctx, md):
             continue
         t, val = last
         names = [s[1].split("::")[-1] for s in subterms(t) if is_call(s)]
-        # subject must be the Text payload of the content_type field just written
-        subj_ok = any(s[0] == "variant" and s[2] == "Text" for s in subterms(t))
-        if "is_empty" in names and val is True and is_call(t) and t[1].endswith("String::is_empty"):
-            found["empty"] = subj_ok
-        elif "trim" in names and (("ne" in names and val is True) or ("eq" in names and val is False)):
-            # trim(text) != text : both operands derive from the same text
-            found["trim"] = subj_ok and is_call(t) and len(t[2]) == 2
-        elif "matches" in names and "count" in names:
-            # count(matches(text, '/')) != 1 : truth table over the count
-            cnt = [s for s in subterms(t) if is_call(s) and s[1].endswith("::count")]
-            pat = [s for s in subterms(t) if s == ("const", "/")]
+
+        def is_text(x):
+            """x is (a borrow / deref coercion of) the Text payload of the content_type field just written - the WHOLE text"""
+            while True:
+                if x[0] in ("ref", "deref"):
+                    x = x[1]
+                elif is_call(x) and x[1] in ("core::ops::deref::Deref::deref",) and len(x[2]) == 1:
+                    x = x[2][0]
+                else:
+                    break
+            if not (x[0] == "field" and x[2] == "0" and x[1][0] == "variant" and x[1][2] == "Text"):
+                return False
+            inner = x[1][1]
+            while inner[0] in ("ref", "deref"):
+                inner = inner[1]
+            if not (inner[0] == "field" and inner[2] == "0" and inner[1][0] == "variant" and inner[1][2] == "Some"):
+                return False
+            src = inner[1][1]
+            while src[0] in ("ref", "deref"):
+                src = src[1]
+            return src[0] == "field" and src[2] == "content_type"
+        if is_call(t) and t[1].endswith("String::is_empty") and val is True:
+            found["empty"] = is_text(t[2][0])
+        elif "trim" in names and is_call(t) and len(t[2]) == 2 and (("ne" in names and val is True) or ("eq" in names and val is False)):
+            # trim(text) != text : one operand is trim(<the text>), the other the text itself
+            a, b = t[2]
+            a2 = a[1] if a[0] == "ref" else a
+            b2 = b[1] if b[0] == "ref" else b
             ok = False
-            if cnt and pat:
-                try:
-                    table = {n: ev(t, {cnt[0]: n}) for n in (0, 1, 2, 3)}
-                    ok = all((table[n] == val) == (n != 1) for n in table)
-                except Unknown:
-                    ok = False
-            found["one-slash"] = ok and subj_ok
+            for x, y in ((a2, b2), (b2, a2)):
+                if is_call(x) and x[1] == "core::str::<impl str>::trim" and is_text(x[2][0]) and is_text(y):
+                    ok = True
+            found["trim"] = ok
+        elif "matches" in names and "count" in names:
+            # count(matches(text, '/')) != 1 : truth table over the count, and the receiver of matches() is the whole text
+            cnt = [s for s in subterms(t) if is_call(s) and s[1].endswith("::count")]
+            ok = False
+            if cnt and is_call(cnt[0][2][0], "core::str::<impl str>::matches"):
+                m = cnt[0][2][0]
+                if is_text(m[2][0]) and m[2][1] == ("const", "/"):
+                    try:
+                        table = {n: ev(t, {cnt[0]: n}) for n in (0, 1, 2, 3)}
+                        ok = all((table[n] == val) == (n != 1) for n in table)
+                    except Unknown:
+                        ok = False
+            found["one-slash"] = ok
     for name, what in (("empty", "text content type must be non-empty"), ("trim", "no leading/trailing whitespace (trim(text) == text)"),
                        ("one-slash", "exactly one '/' (count of matches of '/' == 1)")):
         if name not in found:
